@@ -176,6 +176,22 @@ def bounded(tier, seed, procs):
         if r != ("val", want):
             b2.fail(Failure("substitute-kwargs", f"expr={e!r} d={d!r} kw={kw!r}", dict(kind="subst-kw", expr=trees.src(e), d=repr(d), kw=repr(kw)),
                             expected=repr(want), actual=outcome.describe(r), functions=["substitute"]))
+    # call histories on one caller-owned dict: keyword assignments of one call must not leak into the dict or into the next call
+    z = trees.Z
+    e3 = p.Sum((x, p.Product((y, z))))
+    for d0 in ({}, {"x": 1}, {"x": y}, {x: 2, "y": 3}):
+        d = dict(d0)
+        snapshot = dict(d)
+        r1 = outcome.run(lambda: substitute(e3, d, z=p.Product((x, 2))))
+        r2 = outcome.run(lambda: substitute(e3, d))
+        r3 = outcome.run(lambda: substitute(e3, d, y=7))
+        r4 = outcome.run(lambda: substitute(e3, d))
+        fresh = outcome.run(lambda: substitute(e3, dict(d0)))
+        b2.case(("history", repr(d0)), sample=dict(d=repr(d0)))
+        ok = d == snapshot and r2 == fresh and r4 == fresh and r1[0] == "val" and r3[0] == "val" and (d0 or (r2[0] == "val" and r2[1] is e3))
+        if not ok:
+            b2.fail(Failure("substitute-kwargs", f"what=history d={d0!r} dict_after={d!r}", dict(kind="subst-hist", d=repr(d0)), expected="caller's dict unchanged; later calls see only the dict",
+                            actual=f"dict={d!r} second={outcome.describe(r2)[:80]} fresh={outcome.describe(fresh)[:80]}", functions=["substitute"]))
     return [b, b2]
 
 
